@@ -103,12 +103,17 @@ func oracle(p *progSpec, o *obsT, res *okT, er *errT) []hk.Failure {
 		finalErr = o.RetErr
 	}
 
+	// the log is in attempt order and the error hook, if it ran, ran last
+	for i := 1; i < len(o.Log); i++ {
+		if o.Log[i].Attempt < o.Log[i-1].Attempt || o.Log[i-1].Kind == "onerror" {
+			fail("log-order", "an invocation is logged out of attempt order / after the error hook", o.Log, nil)
+			break
+		}
+	}
 	// which attempt was the last one
 	la := 0
-	for _, e := range o.Log {
-		if e.Kind != "onerror" && e.Attempt > la {
-			la = e.Attempt
-		}
+	if o.Iters > 0 {
+		la = o.Iters - 1
 	}
 	if la >= len(p.Attempts) {
 		fail("too-many-attempts", "more attempts than MaxRetries allows", la+1, len(p.Attempts))
